@@ -4,6 +4,7 @@
 import GeoModel.Parse
 import GeoModel.Prepared
 import GeoModel.Valid
+import GeoModel.GeomGraph
 
 namespace Geo.Ops.C17
 open Geo Geo.P Geo.Prep
@@ -28,16 +29,30 @@ def imP : P (Option IM) := do
 def handleHist (inp out : List String) : String :=
   let pin : P (List Geom × List Call) := do
     let gs ← counted geometry; let cs ← counted callP; pure (gs, cs)
-  let pairP : P (Option IM × Option IM) := do let a ← imP; let b ← imP; pure (a, b)
+  -- per call: prepared-path matrix, plain matrix, `<cache digest before>:<after>` of the prepared
+  -- operands' caches, `<digest of the graphs they hand out>:<digest of the fresh self-noded graphs>`
+  let digestP : P Bool := do
+    let t ← tok
+    match t.splitOn ":" with
+    | [a, b] => pure (a == b && a != "panic")
+    | _ => fail
+  let pairP : P ((Option IM × Option IM) × (Bool × Bool)) := do
+    let a ← imP; let b ← imP; let c ← digestP; let d ← digestP; pure ((a, b), (c, d))
   match P.run pin inp, P.run (many pairP) out with
-  | some (gs, calls), some outPairs =>
+  | some (gs, calls), some outQuads =>
+    let outPairs := outQuads.map (·.1)
     let outs := outPairs.map (·.1)
     let plains := outPairs.map (·.2)
+    let cacheKept := outQuads.all (·.2.1)
+    let cloneFresh := outQuads.all (·.2.2)
     -- prepared == plain is demanded for every history, valid operands or not
     let firstMismatch := (outs.zip plains).findIdx? (fun (a, b) => a != b)
     if !gs.all inDomain then
       (match firstMismatch with
-       | none => reply true "PASS" ("calls=" ++ toString calls.length ++ " out-of-domain impl-vs-impl-only")
+       | none =>
+         if !cacheKept then reply true "FAIL:prepared-cache-changed" ("calls=" ++ toString calls.length ++ " out-of-domain")
+         else if !cloneFresh then reply true "FAIL:prepared-graph-differs-from-fresh-after-reuse" ("calls=" ++ toString calls.length ++ " out-of-domain")
+         else reply true "PASS" ("calls=" ++ toString calls.length ++ " out-of-domain impl-vs-impl-only")
        | some _ => reply true "FAIL:prepared-differs-from-plain" ("calls=" ++ toString calls.length ++ " out-of-domain"))
     else
     -- model: every geometry has a prepared form in the table; a call picks plain or prepared
@@ -52,6 +67,8 @@ def handleHist (inp out : List String) : String :=
       if outs.any Option.isNone then "FAIL:panic"
       else if outs.length != calls.length then "FAIL:missing-result"
       else if firstMismatch.isSome then "FAIL:prepared-differs-from-plain"
+      else if !cacheKept then "FAIL:prepared-cache-changed"
+      else if !cloneFresh then "FAIL:prepared-graph-differs-from-fresh-after-reuse"
       else match firstBad with
         | none => "PASS"
         | some k =>
@@ -66,9 +83,158 @@ def handleHist (inp out : List String) : String :=
     reply same prop tags (shw model) (shw outs)
   | _, _ => "ERR parse"
 
+/-! ### `C17.graph`: the concrete graph of one operand
+
+Input `<idx> <geom>`; output three dumps separated by `|` (format: the `verif` module in
+geo/src/algorithm/relate/mod.rs): the graph as built by `GeometryGraph::new(idx, geom)`, the same
+after `compute_self_nodes`, and the graph handed out by `PreparedGeometry::from(geom)` for operand
+position `idx`. -/
+
+open Geo.GG in
+/-- an edge as dumped: what `buildGraph` models, plus `is_isolated` and the intersection list -/
+structure DEdge where
+  edge : GG.Edge
+  isolated : Bool
+  ixs : List (Pt × Nat × String)
+  deriving DecidableEq
+
+structure Dump where
+  idx : Nat
+  useRule : Bool
+  noded : Bool
+  edges : List DEdge
+  nodes : List GG.Node
+  deriving DecidableEq
+
+def posChar? : Char → Option (Option Pos)
+  | 'i' => some (some .inside)
+  | 'b' => some (some .onBoundary)
+  | 'e' => some (some .outside)
+  | '_' => some none
+  | _ => none
+
+def slotP : P GG.TopoPos := do
+  let t ← tok
+  match t.toList with
+  | [o] => match posChar? o with
+    | some on => pure (.lineOrPoint on)
+    | none => fail
+  | [l, o, r] => match posChar? l, posChar? o, posChar? r with
+    | some left, some on, some right => pure (.area on left right)
+    | _, _, _ => fail
+  | _ => fail
+
+def labelP : P GG.Label := do let a ← slotP; let b ← slotP; pure ⟨a, b⟩
+
+def ixP : P (Pt × Nat × String) := do let c ← pt; let s ← nat; let d ← tok; pure (c, s, d)
+
+def dedgeP : P DEdge := do
+  let cs ← pts; let l ← labelP; let iso ← bool; let ixs ← counted ixP
+  pure ⟨⟨cs, l⟩, iso, ixs⟩
+
+def nodeP : P GG.Node := do let c ← pt; let l ← labelP; pure ⟨c, l⟩
+
+def dumpP : P Dump := do
+  lit "G"; let idx ← nat; let rule ← bool; let noded ← bool
+  lit "E"; let es ← counted dedgeP
+  lit "N"; let ns ← counted nodeP
+  pure ⟨idx, rule, noded, es, ns⟩
+
+/-- `none` = the part is the single token `panic` -/
+def dumpOrPanicP : List String → Option (Option Dump)
+  | ["panic"] => some none
+  | ts => (P.run dumpP ts).map some
+
+def splitBars (ts : List String) : List (List String) :=
+  let rec go (cur : List String) (acc : List (List String)) : List String → List (List String)
+    | [] => (cur.reverse :: acc).reverse
+    | t :: rest => if t = "|" then go [] (cur.reverse :: acc) rest else go (t :: cur) acc rest
+  go [] [] ts
+
+def posCh : Option Pos → String
+  | some .inside => "i"
+  | some .onBoundary => "b"
+  | some .outside => "e"
+  | none => "_"
+
+def slotStr : GG.TopoPos → String
+  | .lineOrPoint on => posCh on
+  | .area on l r => posCh l ++ posCh on ++ posCh r
+
+def labelStr (l : GG.Label) : String := slotStr l.a ++ "/" ++ slotStr l.b
+
+def graphStr (edges : List GG.Edge) (nodes : List GG.Node) (rule : Bool) : String :=
+  "rule=" ++ toString rule ++ " E" ++
+    String.join (edges.map (fun e => " (" ++ ptsStr e.coords ++ " " ++ labelStr e.label ++ ")")) ++ " N" ++
+    String.join (nodes.map (fun n => " (" ++ n.coord.str ++ " " ++ labelStr n.label ++ ")"))
+
+def geomKind : Geom → String
+  | .point _ => "Point" | .line _ _ => "Line" | .lineString _ => "LineString" | .polygon _ => "Polygon"
+  | .multiPoint _ => "MultiPoint" | .multiLineString _ => "MultiLineString" | .multiPolygon _ => "MultiPolygon"
+  | .rect _ _ => "Rect" | .triangle _ _ _ => "Triangle" | .collection _ => "GeometryCollection"
+
+def bucket (n : Nat) : String := if n ≤ 3 then toString n else if n ≤ 8 then "4-8" else "9+"
+
+def handleGraph (inp out : List String) : String :=
+  let pin : P (Nat × Geom) := do let i ← nat; let g ← geometry; pure (i, g)
+  match P.run pin inp, (splitBars out).map dumpOrPanicP with
+  | some (idx, g), [some fresh, some noded, some prepared] =>
+    if idx > 1 then "ERR arg-index" else
+    -- property (on the implementation's outputs alone): the graph a prepared geometry hands out
+    -- is the graph `relate` builds and self-nodes for the plain geometry, for this operand position
+    let prop :=
+      if prepared != noded then
+        (match prepared, noded with
+         | none, _ => "FAIL:prepared-graph-panics"
+         | some p, some n =>
+           if p.idx != n.idx then "FAIL:prepared-graph-arg-index"
+           else if p.edges.map (·.edge) != n.edges.map (·.edge) then "FAIL:prepared-graph-edges-differ-from-fresh"
+           else if p.nodes != n.nodes then "FAIL:prepared-graph-nodes-differ-from-fresh"
+           else if p.useRule != n.useRule then "FAIL:prepared-graph-boundary-rule-flag"
+           else "FAIL:prepared-graph-intersections-differ-from-fresh"
+         | some _, none => "FAIL:prepared-graph-differs-from-fresh")
+      else match prepared with
+        | some p => if p.idx != idx then "FAIL:prepared-graph-arg-index" else if !p.noded then "FAIL:prepared-graph-not-noded" else "PASS"
+        | none => "PASS"
+    -- model
+    let m := GG.buildGraph idx g
+    let mNodes := GG.sortNodes m.nodes
+    let freshOk := match fresh with
+      | some f => f.idx == idx && f.useRule == m.useRule && !f.noded && f.edges.map (·.edge) == m.edges &&
+          f.edges.all (fun e => e.isolated && e.ixs.isEmpty) && f.nodes == mNodes
+      | none => false
+    -- the un-noded part of a self-noded graph, and its nodes from the recorded intersections
+    let nodedOk (d : Option Dump) : Bool := match d with
+      | some n =>
+        let ixs := n.edges.map (fun e => e.ixs.map (·.1))
+        let m' := GG.addSelfIntersectionNodes idx ixs m
+        n.idx == idx && n.useRule == m.useRule && n.noded && n.edges.map (·.edge) == m.edges &&
+          n.nodes == GG.sortNodes m'.nodes
+      | none => false
+    let same := freshOk && nodedOk noded && nodedOk prepared
+    let nIx := match noded with | some n => (n.edges.map (·.ixs.length)).foldl (· + ·) 0 | none => 0
+    let nNew := match noded with | some n => n.nodes.length - mNodes.length | none => 0
+    let nB := (mNodes.filter (fun n => n.label.onPos idx == some .onBoundary)).length
+    let tags := "graph idx=" ++ toString idx ++ " kind=" ++ geomKind g ++ " edges=" ++ bucket m.edges.length ++
+      " nodes=" ++ bucket mNodes.length ++ " boundary-nodes=" ++ bucket nB ++ " self-ix=" ++ bucket nIx ++
+      " self-nodes=" ++ bucket nNew ++ " rule=" ++ toString m.useRule ++
+      (if m.edges.isEmpty && mNodes.isEmpty then " triv" else "")
+    let implStr := match fresh, noded with
+      | some f, some n => graphStr (f.edges.map (·.edge)) f.nodes f.useRule ++ " ;noded N" ++
+          String.join (n.nodes.map (fun x => " (" ++ x.coord.str ++ " " ++ labelStr x.label ++ ")"))
+      | _, _ => "panic"
+    let modelStr := graphStr m.edges mNodes m.useRule ++ " ;noded N" ++
+      (match noded with
+       | some n => String.join ((GG.sortNodes (GG.addSelfIntersectionNodes idx (n.edges.map (fun e => e.ixs.map (·.1))) m).nodes).map
+           (fun x => " (" ++ x.coord.str ++ " " ++ labelStr x.label ++ ")"))
+       | none => "")
+    reply same prop tags modelStr implStr
+  | _, _ => "ERR parse"
+
 def handle (op : String) (inp out : List String) : Option String :=
   match op with
   | "C17.hist" => some (handleHist inp out)
+  | "C17.graph" => some (handleGraph inp out)
   | _ => none
 
 end Geo.Ops.C17
